@@ -50,6 +50,7 @@ THEOREMS = {
     "C13_nplate_minimum_refuted": "code as found (fixed=false): witness A:1, B:3, C:1 plates with minimum 2 leaves C with 1 plate",
     "C13_merge_same_sample": "MergeMin / MergeTopBottom: output plates hold one sample each (only plates of one sample are merged); TopBottom with no iteration merges nothing",
     "C13_mergemin_satisfied_sample_untouched": "MergeMin, per sample: a sample whose unobserved plates already satisfy the stop rule keeps exactly its plates, each with exactly its rows, whatever merging other samples need (C13_mergemin_stop says so only when EVERY sample satisfies it)",
+    "C13_ensemble_minimum": "the per-sample minimum holds of the ENSEMBLE smoother's output too (its last stage is the per-sample-minimum smoother on what MergeMin, MergeTopBottom and OptimalSize leave)",
     "C13_mergemin_stop": "MergeMin, every accepted heappop answer: in the output any two distinct unobserved plates of one sample together exceed min_size; if that already holds of the input nothing is merged",
     "C13_topbottom_halves": "MergeTopBottom: one iteration takes the number of plates of the sample from n to ceil(n/2), leaves other samples' plates alone, and breaks only at n <= 1",
     "C13_topbottom_counts": "MergeTopBottom end to end: every sample's number of unobserved plates is halved (rounding up) n_iterations times",
